@@ -784,7 +784,8 @@ class NSGCoordinator(GameCoordinator):
         for net, ips in self._networks.items():
             if netaddr.IPNetwork(str(net)).ip.is_ipv4_private_use():
                 for ip in ips:
-                    local_ips.add(self._ip_mapping[ip])
+                    # self._networks always holds the current addresses
+                    local_ips.add(ip)
         self.logger.info(f"\t\t\tLocal ips: {local_ips}")
         return local_ips
      
